@@ -276,6 +276,9 @@ func genAggs(t *rapid.T, in hx.Table, keys []string) []hx.Agg {
 	var aggs []hx.Agg
 	for i := 0; i < n; i++ {
 		c := in.Cols[rapid.IntRange(0, len(in.Cols)-1).Draw(t, "aggcol")]
+		if len(aggs) > 0 && rapid.IntRange(0, 2).Draw(t, "samecolagain") == 0 {
+			c = in.MustCol(aggs[len(aggs)-1].Col) // several aggregations of one column in one call
+		}
 		a := hx.Agg{Col: c.Name, Fn: rapid.SampledFrom(hx.AggsFor(c.Kind)).Draw(t, "aggfn")}
 		if used[c.Name] || rapid.IntRange(0, 2).Draw(t, "as") == 0 {
 			a.As = fmt.Sprintf("agg%d", i)
